@@ -315,6 +315,19 @@ impl Task {
     }
 
     pub fn set_state(&self, state: TaskState) {
+        #[cfg(feature = "verif")]
+        let _verif_guard = crate::verif::state_guard();
+        #[cfg(feature = "verif")]
+        crate::verif::push(crate::verif::Event::State {
+            seq: crate::verif::next_seq(),
+            pid: self.pid.clone(),
+            tid: self.id.clone(),
+            nid: self.node.id().to_string(),
+            kind: self.node.kind().to_string(),
+            old: self.state().to_string(),
+            new: state.to_string(),
+            via: "set",
+        });
         if state.is_completed() {
             self.set_end_time(utils::time::time_millis());
 
@@ -346,6 +359,19 @@ impl Task {
     }
 
     pub fn set_pure_state(&self, state: TaskState) {
+        #[cfg(feature = "verif")]
+        let _verif_guard = crate::verif::state_guard();
+        #[cfg(feature = "verif")]
+        crate::verif::push(crate::verif::Event::State {
+            seq: crate::verif::next_seq(),
+            pid: self.pid.clone(),
+            tid: self.id.clone(),
+            nid: self.node.id().to_string(),
+            kind: self.node.kind().to_string(),
+            old: self.state().to_string(),
+            new: state.to_string(),
+            via: "load",
+        });
         *self.state.write().unwrap() = state;
     }
 
